@@ -158,4 +158,96 @@ theorem step_cached_of_wp (c : SysCfg) (hc : c.cached = true) (hnr : c.NoReact)
       | nil => rfl
       | cons x xs ih => simp only [List.map_cons, Function.comp_apply, ih]
 
+/-- the build without the cache, on an operation without schedule and faults, is plain execution -/
+theorem step_uncached_runP (c : SysCfg) (hnr : c.NoReact) (s : Sys) (a : Api) (h : Handle) (hh : s.handle = some h)
+    (hnc : a.isCreate = false) :
+    match runP (Api.prog c.cap c.fuel a h) ⟨s.world.chip, [], []⟩ with
+    | .done (r, h') ps =>
+      (s.step c.uncached (.api a [] [])).2 = .ret r ((ps.cbs.reverse).map (fun e => { ev := e })) ps.bus.reverse ∧
+      (s.step c.uncached (.api a [] [])).1.handle = some h' ∧
+      (s.step c.uncached (.api a [] [])).1.world.chip = ps.chip
+    | .ub u _ => (s.step c.uncached (.api a [] [])).2 = .ub u := by
+  have hskip : ¬(s.handle.isNone = true ∧ (!a.isCreate) = true) := by simp [hh]
+  have hp := execG_runP (Api.prog c.cap c.fuel a h)
+    { s.world with xfer := 0, sched := [], faults := [], bus := [], cbs := [], cache := s.world.cache }
+    ⟨rfl, rfl⟩ (fun c hc => by cases hc)
+  simp only [List.map_nil] at hp
+  have h2 : c.uncached.toCfg.cached = false := rfl
+  have h3 : c.uncached.cap = c.cap := rfl
+  have h4 : c.uncached.fuel = c.fuel := rfl
+  cases hr : runP (Api.prog c.cap c.fuel a h) ⟨s.world.chip, [], []⟩ with
+  | ub u ps =>
+    rw [hr] at hp
+    unfold Sys.step
+    dsimp only
+    rw [if_neg hskip, hh]
+    simp only [Option.getD_some, hnc, Bool.false_eq_true, ↓reduceIte]
+    unfold exec
+    rw [onCb_noReact hnr, h2, h3, h4]
+    generalize execG false logCb (Api.prog c.cap c.fuel a h) _ = o at hp
+    cases o with
+    | ub u' w => simp only [PRel] at hp; subst hp; rfl
+    | done rh w => simp only [PRel] at hp
+  | done rh ps =>
+    rw [hr] at hp
+    obtain ⟨r, h'⟩ := rh
+    unfold Sys.step
+    dsimp only
+    rw [if_neg hskip, hh]
+    simp only [Option.getD_some, hnc, Bool.false_eq_true, ↓reduceIte]
+    unfold exec
+    rw [onCb_noReact hnr, h2, h3, h4]
+    generalize execG false logCb (Api.prog c.cap c.fuel a h) _ = o at hp
+    cases o with
+    | ub u w => simp only [PRel] at hp
+    | done rh w =>
+      obtain ⟨r2, h2'⟩ := rh
+      simp only [PRel] at hp
+      obtain ⟨hrr, hchip, hbus, hcbs, hplain, hnoreact⟩ := hp
+      cases hrr
+      simp only [hplain.1, List.foldl_nil]
+      refine ⟨?_, trivial, hchip⟩
+      rw [hbus]
+      congr 1
+      have : w.cbs = (w.cbs.map (·.ev)).map (fun e => ({ ev := e } : CbRec)) := by
+        rw [List.map_map]
+        conv => lhs; rw [← List.map_id w.cbs]
+        apply List.map_congr_left
+        intro x hx
+        have := hnoreact x hx
+        cases x
+        simp_all
+      rw [this, hcbs, List.map_reverse]
+
+/-- if the build with the cache returns (no undefined behaviour), plain execution returns the
+    same code, the handle afterwards is the one plain execution leaves, and the writes are the
+    same — from any state satisfying the invariant of C01 -/
+theorem step_cached_ret (c : SysCfg) (hc : c.cached = true) (hnr : c.NoReact)
+    (s : Sys) (i : Inv s.world) (a : Api) (hv : a.Valid) (h : Handle) (hh : s.handle = some h)
+    (hnc : a.isCreate = false) (r : Except Code Out) (cbs : List CbRec) (bus : List BusEv)
+    (hret : (s.step c (.api a [] [])).2 = .ret r cbs bus) :
+    ∃ h' ps, runP (Api.prog c.cap c.fuel a h) ⟨s.world.chip, [], []⟩ = .done (r, h') ps ∧
+      (s.step c (.api a [] [])).1.handle = some h' ∧ writesOf bus = writesOf ps.bus.reverse := by
+  have hsim := step_sim c hc hnr.valid s s ⟨rfl, rfl, i⟩ (.api a [] []) ⟨rfl, rfl⟩ hv (fun e he => by cases he)
+  have hu := step_uncached_runP c hnr s a h hh hnc
+  obtain ⟨hrel, hsr⟩ := hsim
+  rw [hret] at hrel
+  cases hr : runP (Api.prog c.cap c.fuel a h) ⟨s.world.chip, [], []⟩ with
+  | ub u ps =>
+    rw [hr] at hu
+    dsimp only at hu
+    rw [hu] at hrel
+    simp [ObsRel] at hrel
+  | done rh ps =>
+    rw [hr] at hu
+    obtain ⟨r0, h0⟩ := rh
+    dsimp only at hu
+    obtain ⟨ho, hhd, _⟩ := hu
+    rw [ho] at hrel
+    simp only [ObsRel] at hrel
+    obtain ⟨h1, _, h3, _⟩ := hrel
+    subst h1
+    have hsr' := hsr (fun u => by rw [hret]; intro e; cases e)
+    exact ⟨h0, ps, rfl, by rw [hsr'.handle]; exact hhd, h3⟩
+
 end Sx
